@@ -1492,6 +1492,9 @@ class Exec:
                     raise RaiseSig("ValueError", getattr(target, "lineno", None), implicit=True)
                 for t, v in zip(target.elts, value.items):
                     self.bind_target(t, v, env)
+            elif isinstance(value, Z) and value.t.sort() == self.S.Py:
+                # an element of a symbolic sequence: must be a tuple / list of that many items
+                self.bind_target_assign(target, value, env, getattr(target, "lineno", None))
             else:
                 raise Unsupported("unpacking a symbolic value")
         else:
@@ -1766,6 +1769,14 @@ class Exec:
             return
         if isinstance(target, ast.Attribute):
             base = self.ev(target.value, env)
+            if isinstance(base, Z) and base.t.sort() == self.S.Py and target.attr in self.S.owners \
+                    and isinstance(target.value, (ast.Attribute, ast.Subscript)):
+                # x.f.g = v: the node x.f is not held by a variable of its own, so the functional
+                # update has to be written back into x as well (x.f := x.f[g := v])
+                self.frame_write(base, f"store to .{target.attr}", line)
+                newt = self.update_field(base, target.attr, v, line)
+                self.assign(target.value, newt, env, line)
+                return
             self.setattr_(base, target.attr, v, env, target.value, line)
             return
         if isinstance(target, ast.Subscript):
